@@ -701,9 +701,33 @@ def gen_corpus(ck, run):
     return len(cp)
 
 
+# multi-step ALTER sequences on one table (shape only, exp=None): the table was named by an earlier statement
+# (DROP TABLE t; / an older CREATE TABLE t), or a column was renamed / dropped / modified before the ALTER that names it
+ALTER_SEQUENCES = [
+    "DROP TABLE {t};\nCREATE TABLE {t} (id int NOT NULL, customer_id int, note varchar(20));\nALTER TABLE {t} ADD CONSTRAINT fk_c FOREIGN KEY (customer_id) REFERENCES customers (id);",
+    "DROP TABLE {t};\nCREATE TABLE {t} (id int NOT NULL, customer_id int);\nALTER TABLE {t} ADD FOREIGN KEY (customer_id) REFERENCES customers (id);\nCREATE INDEX ix ON {t} (customer_id);",
+    "CREATE TABLE {t} (legacy int);\nCREATE TABLE {t} (id int, customer_id int);\nALTER TABLE {t} ADD CONSTRAINT fk_c FOREIGN KEY (customer_id) REFERENCES customers (id);",
+    "CREATE TABLE {t} (id int NOT NULL, cust int, note varchar(20));\nALTER TABLE {t} RENAME COLUMN cust TO customer_id;\nALTER TABLE {t} ADD CONSTRAINT fk_c FOREIGN KEY (customer_id) REFERENCES customers (id);",
+    "CREATE TABLE {t} (id int NOT NULL, cust int);\nALTER TABLE {t} RENAME COLUMN cust TO customer_id;\nALTER TABLE {t} ADD FOREIGN KEY (id, customer_id) REFERENCES customers (a, b);",
+    "CREATE TABLE {t} (id int NOT NULL, cust int, tmp int);\nALTER TABLE {t} DROP COLUMN tmp;\nALTER TABLE {t} ADD tmp2 int;\nALTER TABLE {t} ADD CONSTRAINT fk_c FOREIGN KEY (cust) REFERENCES customers (id);",
+    "CREATE TABLE {t} (id int NOT NULL, cust int);\nALTER TABLE {t} MODIFY COLUMN cust bigint;\nALTER TABLE {t} RENAME COLUMN cust TO customer_id;\nALTER TABLE {t} ADD CONSTRAINT fk_c FOREIGN KEY (customer_id) REFERENCES customers (id);",
+    "CREATE TABLE {t} (id int NOT NULL, cust int);\nALTER TABLE {t} ADD CONSTRAINT fk_c FOREIGN KEY (cust) REFERENCES customers (id);\nALTER TABLE {t} RENAME COLUMN cust TO customer_id;\nALTER TABLE {t} ADD extra int;",
+    "CREATE TABLE {t} (id int PRIMARY KEY, cust int);\nALTER TABLE {t} RENAME COLUMN id TO ident;\nALTER TABLE {t} ADD CONSTRAINT fk_c FOREIGN KEY (ident) REFERENCES customers (id);",
+]
+
+
+def gen_alter_sequences(ck, run):
+    i = 0
+    for si, text in enumerate(ALTER_SEQUENCES):
+        for name in (("orders",) if ck.quick() else ("orders", "shop.orders", '"Orders"')):
+            run.case("alter-sequences", (si, name), text.replace("{t}", name), None, _plan(ck, i, extra=["bigquery"] if si % 3 == 0 else []))
+            i += 1
+
+
 def check(ck):
     run = _Runner(ck, fresh_json=not ck.quick())
     gen_empty(ck, run)
+    gen_alter_sequences(ck, run)
     gen_column_atoms(ck, run)
     gen_primary_keys(ck, run)
     gen_constraints_and_clauses(ck, run)
